@@ -37,7 +37,7 @@ ASSUMPTIONS = [
     "a key file assigned to a *schema* sub-configuration does not survive a load that replaces that "
     "sub-configuration (recorded known finding); such plans are labelled so the signature stays narrow",
 ]
-REQUIRED = ["secret:typed-list-item", "secret:typed-dict-entry", "plan:root-key", "plan:default", "plan:sub-assign", "plan:class-key", "plan:rekey", "plan:rotate", "plan:rotate-after-failed-save", "secret:moved-item", "secret:root", "secret:depth3",
+REQUIRED = ["secret:typed-list-item", "secret:typed-dict-entry", "plan:root-key", "plan:default", "plan:sub-assign", "plan:class-key", "plan:rekey", "plan:rotate", "plan:rotate-after-failed-save", "plan:rekey-loaded", "secret:moved-item", "secret:root", "secret:depth3",
             "secret:configtype", "secret:list-item", "secret:ct-list-item", "default-key-must-not-exist"] + ["fmt:" + f for f in trees.FORMATS]
 LEVEL_TEXT = (
     "Generated key-file plans x secret placements x formats with a model of key inheritance, an independent "
@@ -80,6 +80,7 @@ def strategy(tier):
         "class_keys": st.fixed_dictionaries({"T": st.sampled_from([None, None, "kT", "kroot"]), "TI": st.sampled_from([None, None, "kTI", "kroot"])}),
         "rekey_root": st.sampled_from([None, None, "kroot2"]),
         "rotate": st.sampled_from([None, "plain", "after-failed-save", "after-failed-save"]),
+        "rekey_loaded": st.booleans(),
         "methods": st.lists(st.sampled_from(["aes", "xor", "best"]), min_size=10, max_size=10),
     })
 
@@ -423,6 +424,23 @@ def run_case(case, R):
         # one call-site class for plans that assign a key file to a sub-configuration before loading: the load replaces
         # that sub-configuration object and the assignment is lost (recorded known finding)
         R.check(not problems, "reload", "subconfig-key-assigned" if sub_plan else "plain-plan", lambda: "; ".join(problems)[:500])
+
+        # ---- the configuration that was LOADED gets another root key file and is saved again, secrets untouched -----------
+        if err is None and not problems and not sub_plan and case.get("rekey_loaded"):  # (sub-configuration keys do not survive a load: known finding)
+            R.label("plan:rekey-loaded")
+            if not ever["default"] and os.path.exists(home_default):
+                os.unlink(home_default)
+            cfg2._key_filename = _kp(d, "kloaded")
+            table3 = dict(table2)
+            table3[""] = _kp(d, "kloaded")
+            with sandbox.Recorder() as rec5:
+                try:
+                    data5 = cfg2.dumps(fmt)
+                except Exception as exc:
+                    data5 = None
+                    R.fail("save-raises", fmt + ":rekey-loaded", "dumps of the loaded configuration after re-keying raised %r" % (exc,))
+            if data5 is not None:
+                check_saved(data5, table3, "rekey-loaded", rec5)
 
         # ---- re-key after the first save, save again -----------------------------------------------------------------
         late = [a for a in case["assign"] if a[2] == "after_save"]
